@@ -169,11 +169,23 @@ ById(h, id, kinds) ==
 Owing(h) == {j \in 1..Len(h.reqs) : InFlight(h, j) /\ h.reqs[j].cc < h.ci /\ h.reqs[j].id # 0
                /\ (IF h.reqs[j].ph = "rec" THEN h.reqs[j].rsc # h.ci ELSE h.reqs[j].sc # h.ci)}
 
-\* C17: something that is no first transmission of anything went out while retransmissions are owed:
-\* the stored bytes of an unacknowledged packet have been altered
+\* The property that speaks about the retransmission a request is owed
+OwedProp(r) == IF r.kind = "P1" THEN "C02" ELSE IF r.kind = "P2" THEN "C03" ELSE "C05"
+RECURSIVE ViolEach(_, _, _, _)
+ViolEach(h, h0, S, why) ==
+  IF S = {} THEN h
+  ELSE LET p == CHOOSE p \in S : TRUE IN ViolEach(Viol(h, p, why), h0, S \ {p}, why)
+
+\* Something that is no first transmission of anything went out on a resumed connection while
+\* retransmissions are owed: the stored bytes of an unacknowledged packet have been altered (C17), and
+\* the owed PUBLISH / PUBREL / SUBSCRIBE / UNSUBSCRIBE was not retransmitted intact on this resume
+\* (C02 / C03 / C05)
 C17Owed(h0, h) ==
-  IF h0.ack.have /\ h0.ack.sp = 1 /\ {j \in Owing(h0) : h0.reqs[j].ph = "new"} # {}
-  THEN Viol(h, "C17", "a packet that equals no first transmission was sent while retransmissions are owed")
+  IF h0.ack.have /\ h0.ack.sp = 1 /\ Owing(h0) # {}
+  THEN LET why == "a packet that equals no first transmission was sent while retransmissions are owed"
+           ps == {OwedProp(h0.reqs[j]) : j \in Owing(h0)} \cup {"C05"}
+                   \cup (IF {j \in Owing(h0) : h0.reqs[j].ph = "new"} # {} THEN {"C17"} ELSE {})
+       IN ViolEach(h, h0, ps, why)
   ELSE h
 
 Truth(h, k) ==
@@ -876,7 +888,13 @@ StepDrainEnd(h, e) ==
                  Viol(h3, IF h.reqs[k].kind = "P1" THEN "C02" ELSE IF h.reqs[k].kind = "P2" THEN "C03" ELSE "C05",
                       "an accepted operation was never completed although the broker answered everything")
             ELSE h3
-  IN h4
+      \* the drain polled a live, resumed connection to the end and an owed retransmission never came
+      owing == Owing(h)
+      h5 == IF ~e.done /\ h.up /\ ~h.dead /\ h.ack.have /\ h.ack.sp = 1 /\ owing # {}
+            THEN ViolEach(h4, h, {OwedProp(h.reqs[j]) : j \in owing} \cup {"C05"},
+                          "an unacknowledged request was never retransmitted on the resumed connection")
+            ELSE h4
+  IN h5
 
 \* C13 / C15: the run that just ended (h.sum) and the run before it (h.prev) are a twin pair: the
 \* same program against the same deterministic broker, once undisturbed and once with
